@@ -1298,6 +1298,12 @@ theorem cleanDecision_true (g : Graph) (s : State) (n w : Nat) (h : cleanDecisio
   cases h1 : (g.node n).dryRun <;> cases h2 : (g.node n).flat <;> cases h3 : (g.node n).cloneSource <;>
     cases h4 : g.idIn w n <;> simp [h1, h2, h3, h4] at h ⊢
 
+theorem sameNodes_cloneSource {gv g : Graph} (h : SameNodes gv g) (n : Nat) : (gv.node n).cloneSource = (g.node n).cloneSource := by
+  have := congrArg Node.cloneSource (h.node n); exact this
+
+theorem sameNodes_dryRun {gv g : Graph} (h : SameNodes gv g) (n : Nat) : (gv.node n).dryRun = (g.node n).dryRun := by
+  have := congrArg Node.dryRun (h.node n); exact this
+
 /-! ## instances for the witnesses of `Props/C05.lean` -/
 
 /-- two workers of DIFFERENT swarms; `p` (nodes 0, 1) sets the removable state `vm1/p` (`unset_mode=fi`); its dependants
